@@ -109,7 +109,10 @@ def defaultValue (ops : NumOps α) (validateDouble : Bool) (d : Domain α) (dflt
     match d with
     | .double lo hi =>
       if ops.beq lo hi then .ok (.dbl lo)
-      else .ok (.dbl (ops.div (ops.add lo hi) (ops.add ops.one ops.one)))
+      else
+        -- `min(max(low / 2 + high / 2, low), high)`: halved before adding (no overflow), clamped
+        let two := ops.add ops.one ops.one
+        .ok (.dbl (clip ops (ops.add (ops.div lo two) (ops.div hi two)) lo hi))
     | .integer lo hi => .ok (.int (lo + (((hi - lo + 1).toNat / 2 : Nat) : Int)))
     | .discrete vs => match vs[vs.length / 2]? with
       | some x => .ok (.dbl x)
